@@ -501,7 +501,7 @@ def main(tier, replay=None):
             if w[0][0] != "request":
                 continue   # a history without a first request has nothing to judge
             words.append(list(w))
-    nrandom = (20000 if tier == "quick" else 1000000) // W
+    nrandom = (20000 if tier == "quick" else 300000) // W
     with ProcessPoolExecutor(max_workers=W) as pool:
         res = list(pool.map(worker, [(w, nrandom, words[w::W]) for w in range(W)]))
     stats = collections.Counter()
